@@ -1,5 +1,7 @@
 #![allow(dead_code)]
+mod astx;
 mod driver;
+mod execx;
 mod errors;
 mod export;
 mod gen;
@@ -49,6 +51,7 @@ fn main() {
     std::panic::set_hook(Box::new(|_| {}));
     let mut rep = report::Report::new(&prop, &tier, seed);
     match prop.as_str() {
+        "C01" => props::c01::run(&mut rep, &tier, seed),
         "C13" => props::c13::run(&mut rep, &tier, seed),
         "C14" => props::c14::run(&mut rep, &tier, seed),
         "C17" => props::c17::run(&mut rep, &tier, seed),
